@@ -582,11 +582,16 @@ fn descendant_and_self(node: dom::XmlNode) -> Vec<dom::XmlNode> {
     nodes
 }
 
+/// All nodes after the context node in document order, excluding descendants
+/// (and attribute and namespace nodes): the following siblings of the node and of
+/// each of its ancestors, with their descendants.
 fn following(node: dom::XmlNode) -> Vec<dom::XmlNode> {
     let mut nodes = vec![];
 
-    for n in following_sibling(node) {
-        nodes.append(&mut descendant_and_self(n));
+    for a in ancestor_and_self(node) {
+        for n in following_sibling(a) {
+            nodes.append(&mut descendant_and_self(n));
+        }
     }
 
     nodes
@@ -618,13 +623,18 @@ fn namespace(node: dom::XmlNode) -> Vec<dom::XmlNode> {
     nodes
 }
 
+/// All nodes before the context node in document order, excluding ancestors
+/// (and attribute and namespace nodes): the preceding siblings of the node and of
+/// each of its ancestors, with their descendants.
 fn preceding(node: dom::XmlNode) -> Vec<dom::XmlNode> {
     let mut nodes = vec![];
 
-    for p in preceding_sibling(node) {
-        let mut desc = descendant_and_self(p);
-        desc.reverse();
-        nodes.append(&mut desc);
+    for a in ancestor_and_self(node) {
+        for p in preceding_sibling(a) {
+            let mut desc = descendant_and_self(p);
+            desc.reverse();
+            nodes.append(&mut desc);
+        }
     }
 
     nodes
